@@ -117,6 +117,7 @@ type Scheduler struct {
 	vc      []vclock
 	writes  []access             // store history (addresses are few)
 	mreads  map[uintptr][]access // map lookups per map identity
+	pins    []unsafe.Pointer     // keeps every address of this execution alive
 	greads  map[uintptr][]access // per global address
 	gwrites map[uintptr]access
 	locks   map[uintptr]*lockState
@@ -152,34 +153,38 @@ func Perm(n, idx int) []int {
 
 // ---- hook methods (called on the goroutine of the running thread) ----
 
-func (s *Scheduler) point(ev Event) {
+// point: p is the address the event is about; it is retained until the end of the
+// execution so that the memory cannot be freed and handed out again to another
+// thread (a reused address would look like a conflicting access).
+func (s *Scheduler) point(ev Event, p unsafe.Pointer) {
 	i := s.running
 	if i < 0 {
 		return
 	}
+	s.pins = append(s.pins, p)
 	ev.Thread = i
 	s.arrive <- arrival{thread: i, ev: ev}
 	<-s.resume[i]
 }
 
 func (s *Scheduler) Store(addr unsafe.Pointer, size uintptr, site int) {
-	s.point(Event{Kind: "store", Addr: uintptr(addr), Size: size, Site: site})
+	s.point(Event{Kind: "store", Addr: uintptr(addr), Size: size, Site: site}, addr)
 }
 func (s *Scheduler) MapStore(id unsafe.Pointer, site int) {
-	s.point(Event{Kind: "mapstore", Addr: uintptr(id), Size: 1, Site: site})
+	s.point(Event{Kind: "mapstore", Addr: uintptr(id), Size: 1, Site: site}, id)
 }
 func (s *Scheduler) MapRead(id unsafe.Pointer, site int) {
-	s.point(Event{Kind: "mapread", Addr: uintptr(id), Size: 1, Site: site})
+	s.point(Event{Kind: "mapread", Addr: uintptr(id), Size: 1, Site: site}, id)
 }
 func (s *Scheduler) Global(addr unsafe.Pointer, write bool, site int) {
 	k := "gread"
 	if write {
 		k = "gwrite"
 	}
-	s.point(Event{Kind: k, Addr: uintptr(addr), Size: 1, Site: site})
+	s.point(Event{Kind: k, Addr: uintptr(addr), Size: 1, Site: site}, addr)
 }
 func (s *Scheduler) Sync(obj unsafe.Pointer, op string) {
-	s.point(Event{Kind: op, Addr: uintptr(obj), Site: -1})
+	s.point(Event{Kind: op, Addr: uintptr(obj), Site: -1}, obj)
 }
 
 // MapOrder is a decision of its own (not a thread switch).
